@@ -99,6 +99,8 @@ type Node struct {
 	refused  int
 	closedBy int // connections closed by the remote side (the service)
 	done     bool
+	// Offending marks header hashes whose delivery is an offence (forbidden / checkpoint-contradicting headers).
+	Offending map[chainhash.Hash]bool
 	// Insert, if set, may replace the headers of a reply (fault injection: forbidden / contradicting headers).
 	Insert func(reply []*wire.BlockHeader, connID int, nthGetHeaders int) ([]*wire.BlockHeader, bool)
 }
@@ -334,6 +336,13 @@ func (n *Node) onGetHeaders(cn *conn, m *wire.MsgGetHeaders) bool {
 	}
 	insert := n.Insert
 	stalled := spec.StallAt > 0 && k >= spec.StallAt
+	if !stalled && len(n.Offending) > 0 {
+		for _, h := range reply {
+			if n.Offending[h.BlockHash()] {
+				cn.offended = true
+			}
+		}
+	}
 	n.mu.Unlock()
 	if spec.CloseAt > 0 && k == spec.CloseAt && !spec.CloseAfter {
 		n.closeConn(cn, false)
@@ -391,6 +400,18 @@ func (n *Node) RequestsAfterOffence() int {
 		t += c.afterOffend
 	}
 	return t
+}
+
+// EverOffended reports whether an offending reply was sent on any connection.
+func (n *Node) EverOffended() bool {
+	n.mu.Lock()
+	defer n.mu.Unlock()
+	for _, c := range n.conns {
+		if c.offended {
+			return true
+		}
+	}
+	return false
 }
 
 // OffendedConnsOpen counts connections that got an offending reply and are still open.
